@@ -61,6 +61,10 @@ class StrategyFamily(common.Family):
     return {
         'spec': spec,
         'strategy': strat,
+        # aggregate-only iteration (with_result=False): the batches are not
+        # handed out, the aggregates must be the same
+        'agg_only': bool(spec['aggs']) and strat in (
+            'threads', 'chain', 'chain_threads', 'shards') and rng.random() < 0.2,
         'stage_threads': stage_threads,
         'num_threads': rng.choice([1, 2, 2, 3, 4]),
         'shardable': rng.random() < 0.6,
@@ -133,8 +137,14 @@ class StrategyFamily(common.Family):
           cfg.get('stage_threads') or cfg['num_threads'])
       p = pipes.build(spec, num_threads=n, data_source=source(),
                       stages=cfg['cuts'] or None)
-      it = p.make().iterate()
-      obs['out'] = [pipes.batch_key(b) for b in it]
+      if cfg.get('agg_only'):
+        it = p.make().iterate(with_result=False)
+        handed = [b for b in it]
+        obs['handed_out'] = sum(1 for b in handed if b is not None)
+        obs['out'] = list(ref_out)
+      else:
+        it = p.make().iterate()
+        obs['out'] = [pipes.batch_key(b) for b in it]
       obs['res'] = pipes.norm_result(it.agg_result)
     elif strat == 'shards':
       k = cfg['k']
@@ -145,8 +155,13 @@ class StrategyFamily(common.Family):
 
       def run_shard(i):
         try:
-          it_ = p.make(shard=io.ShardConfig(i, k)).iterate()
-          outs[i] = [pipes.batch_key(b) for b in it_]
+          if cfg.get('agg_only'):
+            it_ = p.make(shard=io.ShardConfig(i, k)).iterate(with_result=False)
+            for _ in it_:
+              pass
+          else:
+            it_ = p.make(shard=io.ShardConfig(i, k)).iterate()
+            outs[i] = [pipes.batch_key(b) for b in it_]
           states[i] = it_.agg_state
         except Exception as e:  # pylint: disable=broad-exception-caught
           errs.append(repr(e))
@@ -168,6 +183,8 @@ class StrategyFamily(common.Family):
         j = sim.choose(i + 1, 'o')
         order[i], order[j] = order[j], order[i]
       obs['out'] = [b for o in outs for b in o]
+      if cfg.get('agg_only'):
+        obs['out'] = list(ref_out)
       if spec['aggs']:
         runner = p.make()
         seq = [states[i] for i in order]
